@@ -689,6 +689,11 @@ func (fr *frame) checkPost(ret *ssa.Return, vals []Val, st *State, reach string)
 		g := fr.evalClause(cl, nil, st, extra)
 		ex.oblige(cl.Label, "ensures", cl.Props, imp(reach, g), cl.Pos, cl.Text)
 	}
+	for _, cl := range fr.c.Lemmas {
+		// a lemma is a closed formula over its own quantified variables: proved without any program context
+		g := fr.evalClause(cl, nil, st, extra)
+		ex.oblige(cl.Label, "ensures", cl.Props, g, cl.Pos, cl.Text)
+	}
 	for _, cl := range fr.c.Covers {
 		g := fr.evalClause(cl, nil, st, extra)
 		ex.coverAcc[cl.Label] = append(ex.coverAcc[cl.Label], and(reach, g))
